@@ -5,5 +5,5 @@ cd /verif
 for d in seeded/*/; do
   n=$(basename $d)
   p=$(python3 -c "import json;m=json.load(open('$d/meta.json'));print(' '.join(dict.fromkeys([m['property']]+list(m.get('checks_run',{}).keys()))))")
-  python3 tools/keep_seed.py $d $n $p 2>&1 | tail -1
+  python3 tools/keep_seed.py /verif/$d $n $p 2>&1 | tail -1
 done
